@@ -317,8 +317,26 @@ def edit_order_rule(prog, res):
         sn = f.nodes[g.node_of(store[0])]
         so = R.render(f.call_obj(sn))
         if ok and not (so == 'this._parameters.group(local:idx)' or re.match(r'^this\._parameters\.group\((arg0|local:\w+)\)$', so)):
-            ok = False
-            why = 'parameter is stored into %s' % so
+            # the position handed back by a find-or-create helper: every return is the by-name index of the caller's group name,
+            # or the last position right after the append
+            hm = re.match(r'^this\._parameters\.group\((?:\(anonymous namespace\)::)?(\w+)\(this\._parameters,arg0\)\)$', so)
+            hf = None
+            if hm:
+                for c_ in f.calls():
+                    if c_['callee'].get('inrepo') and c_['callee']['name'] == hm.group(1) and creates_group(c_):
+                        hf = prog.funcs.get(c_['callee']['usr'])
+            if hf is not None:
+                Rh = Renderer(hf)
+                rets = [Rh.render(r_['ch'][0]) for r_ in hf.all_nodes({'ReturnStmt'}) if r_.get('ch')]
+                good_ret = lambda r_: r_ in ('arg0.groupIdx(arg1)', '(arg0.nbGroups() - 1)', '(arg0._groups.size - 1)', '(arg0.groups().size - 1)')
+                if rets and all(good_ret(r_) for r_ in rets):
+                    pass
+                else:
+                    res.undecided('edit-order', 'c3d::parameter', f.loc(), 'the group position comes from %s, whose results (%s) the rule does not read [shape not read by the rule]' % (hf.name, rets[:3]), function=f.sig, expr='order')
+                    return
+            else:
+                ok = False
+                why = 'parameter is stored into %s' % so
         if ok and R.render(sn['args'][0]) != 'arg1':
             ok = False
             why = 'something other than the caller\'s parameter is stored (%s)' % R.render(sn['args'][0])
@@ -463,7 +481,7 @@ def validate_first_rule(prog, res):
         if set(stores) - {'_data_type', field, '_dimension'}:
             problems.append('also writes %s' % sorted(set(stores) - {'_data_type', field, '_dimension'}))
         # dimension: the validated dims (for strings: with the longest string length prepended)
-        dimsrc = stores.get('_dimension', '')
+        dimsrc = re.sub(r'^std::move\((.*)\)$', r'\1', stores.get('_dimension', ''))
         if helper_stores_dims:
             pass   # the helper that made the test stored the dimensions it tested
         elif field != '_param_data_string':
